@@ -159,6 +159,20 @@ fn main() {
 ///   P {"idx":..,"sample":..}                 a sample (first few runs only)
 ///   R <next idx>                             recycle me (too many abandoned threads); exit code 17
 ///   S {summary}                              final summary; exit code 0
+/// (Re-)install the simulator's panic hook, without trusting that it can be done: a thread
+/// abandoned at the end of an earlier run may be parked inside the panic hook of that run
+/// (Humphrey's own hook takes a lock, which is a decision point), and std holds its global hook
+/// lock while a hook runs, so `set_hook` would then block forever.  Returns false if it did not
+/// complete within three seconds: the process is then poisoned and must be replaced.
+fn safe_install_hook() -> bool {
+    let (tx, rx) = std::sync::mpsc::channel::<()>();
+    std::thread::spawn(move || {
+        humsim::sim::install_panic_hook();
+        let _ = tx.send(());
+    });
+    rx.recv_timeout(std::time::Duration::from_secs(3)).is_ok()
+}
+
 fn worker(id: &str, tier: Tier, seed: u64, start: u64, end: u64, stride: u64, deadline_s: f64) {
     let p = find_prop(id).expect("unknown property");
     let t0 = std::time::Instant::now();
@@ -170,7 +184,14 @@ fn worker(id: &str, tier: Tier, seed: u64, start: u64, end: u64, stride: u64, de
             agg.stopped_at_deadline = true;
             break;
         }
-        humsim::sim::install_panic_hook();
+        if !safe_install_hook() {
+            // recycle: the orchestrator starts a fresh process at this index
+            let mut o = out.lock();
+            writeln!(o, "S {}", serde_json::to_string(&agg).unwrap()).ok();
+            writeln!(o, "R {}", idx).ok();
+            o.flush().ok();
+            std::process::exit(17);
+        }
         let scn = p.generate(seed, idx, tier);
         if p.isolated() {
             #[cfg(not(feature = "tk"))]
@@ -235,7 +256,10 @@ fn serve(id: &str) {
         }
         let r = match serde_json::from_str::<serde_json::Value>(&line) {
             Ok(scn) => {
-                humsim::sim::install_panic_hook();
+                if !safe_install_hook() {
+                    // poisoned by an earlier scenario: the executor's parent retries in a new child
+                    std::process::exit(17);
+                }
                 start_run_watchdog();
                 mark_run(true);
                 let r = p.execute(&scn);
